@@ -556,7 +556,11 @@ def r01_3(ctx):
         calls = [c for c in ast.walk(lp) if isinstance(c, ast.Call) and call_name(c) == "apply"]
         okc = len(calls) == 1 and src(calls[0].func.value) == on and [src(a) for a in calls[0].args] == [f"{xn}.extract({on}._dom({mn}))", mn]
         body = src(lp)
-        oks = (f"-tmp if {nn} else tmp" in body) and (f"flexible_addsub(tmp, {nn})" in body)
+        tn = None
+        for s_ in ast.walk(lp):
+            if isinstance(s_, ast.Assign) and calls and s_.value is calls[0] and isinstance(s_.targets[0], ast.Name):
+                tn = s_.targets[0].id
+        oks = tn is not None and (f"-{tn} if {nn} else {tn}" in body) and (f"flexible_addsub({tn}, {nn})" in body)
         ctx.check(R, key, okz and okc and oks, f"loop `{src(lp.iter)}`, call {[src(c) for c in calls]}", ap, lp)
     fa = m.func(FLDMOD, "Field.flexible_addsub", required=False) if False else None
     adj = SU.methods.get("adjoint")
